@@ -208,10 +208,22 @@ def _loaders_read_only(ctx, rule):
     return c14.r11_loaders_read_only(ctx, rule)
 
 
+def _loader_complete(ctx, rule):
+    # a terminal the loader drops has chance 0 instead of its ruleset probability (seed C16-g: whitespace-only values)
+    from . import c07
+    return c07.r10_loader_complete(ctx, rule)
+
+
+def _loader_strip(ctx, rule):
+    from . import c07
+    return c07.r5_strip_discipline(ctx, rule, only=('lib_guesser/grammar_io.py::_load_from_file', 'lib_guesser/grammar_io.py::_load_base_structures'), floor=2)
+
+
 def rules(tier):
     return [('C16.R1', r1_walk_weights), ('C16.R2', r2_uniform_choice), ('C16.R3', r3_seeding), ('C16.R4', r4_limit),
             ('C16.R5', c01.r8_uniform_scale), ('C16.R6', _renorm), ('C16.R7', _loaders_read_only),
-            ('C16.R8', c04.r12_output_point_total)]
+            ('C16.R8', c04.r12_output_point_total), ('C16.R9', _loader_complete),
+            ('C16.R10', _loader_strip)]
 
 
 META = {
